@@ -36,6 +36,8 @@ pub struct World {
     pub names: HashMap<String, usize>,
     pub next_name: usize,
     pub scratch_n: usize,
+    pub bk: crate::backupeng::Bk,
+    pub wall: bool,
 }
 
 fn is_wal(p: &str) -> bool {
@@ -237,6 +239,28 @@ impl World {
                 }
             }
             apply_effect(&mut self.shadow, e);
+            if self.wall {
+                // the kernel stamps mtimes with the real clock: restamp with the virtual one
+                let p = match e {
+                    Effect::Write { path, .. } | Effect::Truncate { path, .. } => Some(path.clone()),
+                    Effect::Open { path, create: true, .. } => Some(path.clone()),
+                    Effect::Rename { to, .. } => Some(to.clone()),
+                    _ => None,
+                };
+                if let Some(p) = p {
+                    let secs = shim::wall_secs() as i64;
+                    let full = self.dir.join(&p);
+                    if let Ok(c) = std::ffi::CString::new(full.to_string_lossy().as_bytes()) {
+                        let ts = [
+                            libc::timespec { tv_sec: secs, tv_nsec: 0 },
+                            libc::timespec { tv_sec: secs, tv_nsec: 0 },
+                        ];
+                        unsafe {
+                            libc::utimensat(libc::AT_FDCWD, c.as_ptr(), ts.as_ptr(), 0);
+                        }
+                    }
+                }
+            }
             match e {
                 Effect::Open { path, create, .. } => {
                     if *create && (is_wal(path)) && !self.names.contains_key(path) {
@@ -438,6 +462,14 @@ pub fn step(w: &mut Option<World>, line: &str, scratch_root: &Path, case_no: &mu
         std::fs::create_dir_all(&dir).expect("mkdir");
         let dir = dir.canonicalize().expect("canon");
         shim::watch(Some(&dir.to_string_lossy()));
+        let wall = nat(&fs, "wall");
+        match wall {
+            Some(s) => {
+                shim::WALL_US.store(s * 1_000_000, std::sync::atomic::Ordering::SeqCst);
+                shim::WALL_ON.store(true, std::sync::atomic::Ordering::SeqCst);
+            }
+            None => shim::WALL_ON.store(false, std::sync::atomic::Ordering::SeqCst),
+        }
         let cfg = Cfg {
             dim: dim as usize,
             metric,
@@ -468,7 +500,10 @@ pub fn step(w: &mut Option<World>, line: &str, scratch_root: &Path, case_no: &mu
             names: HashMap::new(),
             next_name: 0,
             scratch_n: 0,
+            bk: Default::default(),
+            wall: false,
         };
+        world.wall = wall.is_some();
         let out = match b {
             Ok(b) => {
                 world.b = Some(b);
@@ -483,6 +518,9 @@ pub fn step(w: &mut Option<World>, line: &str, scratch_root: &Path, case_no: &mu
         return (t, "bad-op:no-cfg".into());
     };
     let bad = || (line.trim().to_string(), "bad-op".to_string());
+    if op == "tick" || op.starts_with("bk_") {
+        return crate::backupeng::step(w, op.as_str(), &fs, &t).unwrap_or_else(bad);
+    }
     if w.b.is_none() && op != "restart" && op != "disk" && op != "sweep" {
         return (t, "down".into());
     }
